@@ -31,7 +31,7 @@ func init() {
 				Rule: "exhaustive part (seed-independent): a 6-entry unit-size cache over 7 keys is filled, then EVERY sequence of 4 (5 thorough) operations from {Get, Remove, Put} x 7 keys is applied, then six fresh keys evict everything and the eviction order is compared; random part: case = (limit 1..40, unit sizes or a size function with sizes 0..limit+2, 2..40 keys, history of 80-600 Put/Get/Has/Remove/Clear with Remove-then-Get/Remove/Put bursts). After EVERY call: the result, Len, Size (== sum of sizes, <= limit), Has for every key, the exact eviction-callback multiset of that call with evictions in exact LRU order (order of Clear's callbacks and the position of the replaced entry's callback unconstrained), and the accounting/LRU-index hook. " +
 					"Every history is executed as is and with the F1 counterfactual switch; a real-run violation is attributed to F1 iff it vanishes in the counterfactual run, every parent index seen was i/2 or (i-1)/2, and the cache had held >= 5 entries; a violation in a counterfactual run is a VIOLATION. " +
 					"distinct = hash(config, ops); non-trivial = the history evicted at least once and performed an access or removal after a Remove",
-				Required:     []string{"exhaustive_small_histories", "histories", "histories_ge6_entries", "evictions", "remove_then_access", "zero_size_puts", "too_large_puts", "replacing_puts", "clears", "hook_checks"},
+				Required:     []string{"exhaustive_small_histories", "histories", "histories_ge6_entries", "evictions", "remove_then_access", "zero_size_puts", "too_large_puts", "replacing_puts", "clears", "hook_checks", "sparse_observation_runs"},
 				Assumptions:  []string{"reference model: recency list; Put and successful Get count as uses, Has does not", "known finding F1 is excused only through the counterfactual switch in heapq/verif_on.go and only when >= 5 entries were held"},
 				CoverPkgs:    []string{"github.com/creachadair/mds/cache", "github.com/creachadair/mds/heapq"},
 				CoverAnchors: []string{"cache/cache.go", "cache/lru.go", "heapq/heapq.go:pop", "heapq/heapq.go:Remove", "heapq/heapq.go:Pop", "heapq/heapq.go:Add", "heapq/heapq.go:pushUp", "heapq/heapq.go:pushDown", "heapq/heapq.go:swap"},
@@ -92,6 +92,10 @@ func sortEntries(es []lruEntry) {
 }
 
 func c08run(c *fw.Ctx, cfg c08cfg, ops []cop, fixParent bool) (div *heapDiv, st c08stats) {
+	sparse := len(ops)%3 == 0 // a third of the histories: nothing is read between operations except every 97th step
+	if sparse {
+		c.Add("sparse_observation_runs", 1)
+	}
 	heapq.VerifFixParent.Store(fixParent)
 	defer heapq.VerifFixParent.Store(false)
 	odd0 := heapq.VerifOddParent.Load()
@@ -200,6 +204,12 @@ func c08run(c *fw.Ctx, cfg c08cfg, ops []cop, fixParent bool) (div *heapDiv, st 
 				return fail("%v: evictions reported in order %v, want LRU order %v", o, calls, wantEvict), st
 			}
 		}
+		if len(ref.Es) > st.maxLen {
+			st.maxLen = len(ref.Es)
+		}
+		if sparse && step%97 != 0 {
+			continue
+		}
 		// observations
 		if got, want := ch.Len(), len(ref.Es); got != want {
 			return fail("after %v: Len=%d want %d", o, got, want), st
@@ -295,8 +305,22 @@ func c08gen(r *rand.Rand, cfg c08cfg, n int) []cop {
 				ops = append(ops, o)
 			}
 		case 9:
-			if r.IntN(5) == 0 {
+			switch r.IntN(5) {
+			case 0:
 				ops = append(ops, cop{Op: 'C'})
+			case 1: // cyclic scan over limit+1 keys (the classic LRU adversary), Put on miss
+				for j := 0; j < run*2 && len(ops) < n; j++ {
+					k := j % (int(min(cfg.Limit, int64(cfg.Keys-1))) + 1)
+					ops = append(ops, cop{Op: 'G', K: k}, cop{Op: 'P', K: k, V: val()})
+				}
+			case 2: // the same call repeated
+				o := cop{Op: "PGHRC"[r.IntN(5)], K: r.IntN(cfg.Keys)}
+				if o.Op == 'P' {
+					o.V = val()
+				}
+				for j := 0; j < 2+r.IntN(2) && len(ops) < n; j++ {
+					ops = append(ops, o)
+				}
 			}
 		}
 	}
